@@ -1,5 +1,6 @@
 (* Proofs about Model/Accept.v (property C17).  Statements are in Props/C17.v. *)
 From SV Require Import Base.Prelude Base.Bytes Model.Vint Model.Cql Model.Accept Proofs.Cql_proofs.
+From SV Require Model.Request Proofs.Request_proofs.
 Open Scope N_scope.
 
 (* ====================================================================================== *)
@@ -2548,4 +2549,113 @@ Theorem dyn_reject_named t ws v : dyn_lax t v = false ->
 Proof.
   intros Hf. destruct (dyn_reject_lax t ws v Hf) as [e He]. exists e. split; [exact He|].
   apply name_refusal; [exact (real_ser_dyn t ws v e He)|exact (ser_dyn_cause t ws v e He)].
+Qed.
+
+(* ====================================================================================== *)
+(* 11. Rows bound by name (C09's row model instantiated with the real value serialiser)      *)
+(* ====================================================================================== *)
+
+Lemma bytes_eqb_refl b : bytes_eqb b b = true.
+Proof. unfold bytes_eqb. destruct (list_eq_dec N.eq_dec b b); congruence. Qed.
+Lemma bytes_eqb_true a b : bytes_eqb a b = true -> a = b.
+Proof. unfold bytes_eqb. destruct (list_eq_dec N.eq_dec a b); congruence. Qed.
+
+Lemma be32_not_marker n c z : n <= i32_max -> (z = -1 \/ z = -2)%Z -> be32 n ++ c <> enc_signed 4 z.
+Proof.
+  intros Hn Hz H. assert (L : List.length (be32 n ++ c) = 4%nat) by (rewrite H; apply enc_signed_length).
+  rewrite app_length, be32_length in L. destruct c; [|simpl in L; lia]. rewrite app_nil_r in H.
+  apply (f_equal (fun b => read_int (b ++ []))) in H.
+  rewrite read_int_be32 in H by exact Hn. rewrite read_int_signed in H by (destruct Hz; subst; reflexivity).
+  inversion H. destruct Hz; lia.
+Qed.
+
+(* a well-formed [value] read as a cell and written back is itself *)
+Lemma cell_wire_of_out o : cell_out o -> cell_wire (cell_of_out o) = o /\ cell_out (cell_wire (cell_of_out o)).
+Proof.
+  intros Ho. assert (E : cell_wire (cell_of_out o) = o).
+  { destruct Ho as [-> | [-> | (c & -> & Hc)]].
+    - unfold cell_of_out. now rewrite bytes_eqb_refl.
+    - unfold cell_of_out. replace (bytes_eqb unset_marker null_marker) with false by reflexivity. now rewrite bytes_eqb_refl.
+    - unfold cell_of_out.
+      destruct (bytes_eqb (be32 (blen c) ++ c) null_marker) eqn:E1;
+        [apply bytes_eqb_true in E1; exfalso; apply (be32_not_marker (blen c) c (-1)%Z Hc (or_introl eq_refl) E1)|].
+      destruct (bytes_eqb (be32 (blen c) ++ c) unset_marker) eqn:E2;
+        [apply bytes_eqb_true in E2; exfalso; apply (be32_not_marker (blen c) c (-2)%Z Hc (or_intror eq_refl) E2)|].
+      cbn [cell_wire]. unfold framed.
+      replace (skipn 4 (be32 (blen c) ++ c)) with c; [reflexivity|].
+      replace 4%nat with (List.length (be32 (blen c)) + 0)%nat by (rewrite be32_length; reflexivity).
+      now rewrite skipn_app_plus. }
+  split; [exact E|now rewrite E].
+Qed.
+
+Lemma named_vser_some kv t c : named_vser kv t = Some c ->
+  exists o, ser_out (fst kv) true t (snd kv) = (o, None) /\ cell_out o /\ c = cell_of_out o /\ cell_wire c = o.
+Proof.
+  unfold named_vser, ser_out. destruct (ser_buf (fst kv) true t (snd kv) []) as [o [e|]] eqn:E; [discriminate|].
+  intros H. inversion H; subst. exists o. pose proof (sized_ser_buf (fst kv) t (snd kv) o E) as Ho.
+  repeat split; auto. apply cell_wire_of_out, Ho.
+Qed.
+
+Lemma nth_all_Forall {A} (P : A -> Prop) (l : list A) :
+  (forall i x, nth_error l i = Some x -> P x) -> Forall P l.
+Proof.
+  induction l as [|x l IH]; intros H; [constructor|]. constructor.
+  - apply (H 0%nat x). reflexivity.
+  - apply IH. intros i y Hy. apply (H (S i) y). exact Hy.
+Qed.
+
+(* Count and cells for rows bound by name (and the other built-in row types): a SerializedValues
+   comes out only if every column found its value and every value serialised; then it holds one
+   well-formed cell per column - the wire form of the value supplied for that column (by name for
+   maps, by position for sequences) -, nothing supplied is left over, and the invariant of
+   section 3 holds, so every later add_value sequence keeps count = cells *)
+Theorem typed_row_ok (cols : list (bytes * ctype)) r s : from_typed_row cols r = Ok s ->
+  sv_wf s /\ sv_count s = N.of_nat (List.length cols) /\
+  Request.row_complete (carrier * kval) ctype cols r /\
+  exists chunks : list bytes, sv_bytes s = concat chunks /\ List.length chunks = List.length cols /\
+    forall i nm t, nth_error cols i = Some (nm, t) ->
+      exists kv o, Request.supplied (carrier * kval) r i nm = Some kv /\
+                   ser_out (fst kv) true t (snd kv) = (o, None) /\ nth_error chunks i = Some o.
+Proof.
+  unfold from_typed_row. destruct (Request.bind_row (carrier * kval) ctype named_vser cols r) as [cells|e] eqn:E; [|discriminate].
+  intros H. inversion H; subst. clear H.
+  destruct (Request_proofs.bind_row_ok _ _ named_vser cols r cells E) as ((Hlen & Hb) & Hc & Hlt).
+  assert (HF : Forall cell_out (map cell_wire cells)).
+  { apply Forall_map. apply nth_all_Forall. intros i c Hi.
+    destruct (nth_error cols i) as [[nm t]|] eqn:Ec.
+    - destruct (Hb i nm t Ec) as (kv & c' & _ & Hv & Hn). rewrite Hi in Hn. inversion Hn; subst.
+      destruct (named_vser_some kv t c' Hv) as (o & _ & Ho & _ & Hw). now rewrite Hw.
+    - apply nth_error_None in Ec. assert (i < List.length cells)%nat by (apply nth_error_Some; congruence). lia. }
+  split; [|split; [|split]].
+  - exists (map cell_wire cells). cbn [sv_of_cells sv_bytes sv_count]. rewrite map_length.
+    repeat split; auto. unfold u16_max. lia.
+  - cbn [sv_of_cells sv_count]. now rewrite Hlen.
+  - exact Hc.
+  - exists (map cell_wire cells). cbn [sv_of_cells sv_bytes]. split; [reflexivity|]. split; [now rewrite map_length|].
+    intros i nm t Hi. destruct (Hb i nm t Hi) as (kv & c & Hs & Hv & Hn).
+    destruct (named_vser_some kv t c Hv) as (o & Ho & _ & _ & Hw).
+    exists kv, o. split; [exact Hs|]. split; [exact Ho|]. rewrite nth_error_map, Hn. cbn. now rewrite Hw.
+Qed.
+
+(* ... and nothing at all comes out when the value supplied for some column does not serialise *)
+Theorem typed_row_refuses (cols : list (bytes * ctype)) r i nm t kv : nth_error cols i = Some (nm, t) ->
+  Request.supplied (carrier * kval) r i nm = Some kv -> fails (ser_buf (fst kv) true t (snd kv)) ->
+  exists e, from_typed_row cols r = Err e.
+Proof.
+  intros Hc Hs [e He]. unfold from_typed_row.
+  destruct (Request.bind_row (carrier * kval) ctype named_vser cols r) as [cells|e'] eqn:E; [|eauto]. exfalso.
+  destruct (Request_proofs.bind_row_ok _ _ named_vser cols r cells E) as ((_ & Hb) & _ & _).
+  destruct (Hb i nm t Hc) as (kv' & c & Hs' & Hv & _). rewrite Hs in Hs'. inversion Hs'; subst kv'.
+  unfold named_vser in Hv. destruct (ser_buf (fst kv) true t (snd kv) []) as [o [x|]]; cbn [snd] in He; congruence.
+Qed.
+
+(* a missing value for a column, or a key that names no column, refuses the row as well (C09) *)
+Theorem typed_row_map_names (cols : list (bytes * ctype)) kvs s : from_typed_row cols (Request.RMap kvs) = Ok s ->
+  (forall nm t, In (nm, t) cols -> exists kv, Request.assoc (carrier * kval) nm kvs = Some kv) /\
+  (forall k, In k (map fst kvs) -> Request.col_named ctype cols k = true).
+Proof.
+  unfold from_typed_row. destruct (Request.bind_row (carrier * kval) ctype named_vser cols (Request.RMap kvs)) as [cells|e] eqn:E; [|discriminate].
+  intros _. destruct (Request_proofs.bind_row_ok _ _ named_vser cols _ cells E) as ((_ & Hb) & Hc & _). split.
+  - intros nm t Hin. apply In_nth_error in Hin as [i Hi]. destruct (Hb i nm t Hi) as (kv & c & Hs & _). cbn in Hs. eauto.
+  - exact Hc.
 Qed.
